@@ -741,8 +741,9 @@ class Emit:
             gl_decl.append('extern %s %s;' % (ct, cname(name)))
             if not is_decl:
                 gl_def.append('%s %s = %s;' % (ct, cname(name), s.const(t, init) if init else '{0}'))
-            else:
-                gl_def.append('%s %s;' % (ct, cname(name)))
+            elif name.startswith('@_ZTVN10__cxxabiv1'):
+                gl_def.append('%s %s;' % (ct, cname(name)))      # libsupc++ type_info vtables: referenced by address only
+            # other external globals (e.g. __dso_handle) stay declarations
         for f in m.funcs:
             if f['blocks'] is not None and kept(f['name']):
                 body.extend(s.func(f))
